@@ -125,6 +125,7 @@ func (e StdEng) Reduce(fn interface{}, a Tensor, axis int, defaultValue interfac
 	if !a.IsNativelyAccessible() {
 		return nil, errors.Errorf(inaccessibleData, a)
 	}
+	a = compactOperand(a)
 	var at, reuse DenseTensor
 	var dataA, dataReuse *storage.Header
 	if at, reuse, dataA, dataReuse, err = e.prepReduce(a, axis, opts...); err != nil {
@@ -169,6 +170,7 @@ func (e StdEng) OptimizedReduce(a Tensor, axis int, firstFn, lastFn, defaultFn, 
 	if !a.IsNativelyAccessible() {
 		return nil, errors.Errorf(inaccessibleData, a)
 	}
+	a = compactOperand(a)
 
 	var at, reuse DenseTensor
 	var dataA, dataReuse *storage.Header
@@ -240,6 +242,7 @@ func (e StdEng) reduce(
 	methods func(t reflect.Type) (interface{}, interface{}, interface{}, error),
 	a Tensor,
 	along ...int) (retVal Tensor, err error) {
+	a = compactOperand(a)
 	switch at := a.(type) {
 	case *Dense:
 		hdr := at.hdr()
@@ -282,6 +285,16 @@ func (e StdEng) reduce(
 		return nil, errors.Errorf("Cannot perform %s on %T", op, a)
 	}
 
+}
+
+// compactOperand returns a itself, unless a is a *Dense that owns its data without holding it in the default
+// layout of its shape: the clone of a non-contiguous view keeps the cells between its elements. The reduction
+// kernels fold the array as it is, so such an operand is replaced by a compact copy.
+func compactOperand(a Tensor) Tensor {
+	if at, ok := a.(*Dense); ok && !at.IsMaterializable() && !at.hasDefaultLayout() {
+		return at.compacted()
+	}
+	return a
 }
 
 func (StdEng) prepReduce(a Tensor, axis int, opts ...FuncOpt) (at, reuse DenseTensor, dataA, dataReuse *storage.Header, err error) {
